@@ -22,7 +22,8 @@ import (
 // according to a per-token script; faults are triggered inside operations (at the arrival of
 // the k-th attempt at a backend).
 type fwdParams struct {
-	DupPrepares bool // some PREPAREs repeat the text of an earlier one
+	DupPrepares     bool // some PREPAREs repeat the text of an earlier one
+	SystemPrepares  bool // some system requests are PREPAREd and EXECUTEd instead of queried
 	TracedPrepares  bool // some PREPAREs ask for tracing
 	Hosts, NumConns int
 	Clients         int
@@ -81,7 +82,8 @@ type fwd struct {
 	pending       []func() // deferred fault actions (node restarts)
 	fired         map[string]int
 	scriptFn      func(tok string, v primitive.ProtocolVersion) []world.OutcomeSpec
-	sharePrepared bool // a successful PREPARE is known to every node at once (no UNPREPARED)
+	sysPrepared   map[*world.Client][][2][]byte // system statements prepared per connection: id, result metadata id
+	sharePrepared bool                          // a successful PREPARE is known to every node at once (no UNPREPARED)
 }
 
 const (
@@ -346,6 +348,27 @@ func (f *fwd) sendOne(i int) {
 	case kSystem:
 		qs := []string{"SELECT * FROM system.local", "SELECT * FROM system.peers", "SELECT key, rpc_address FROM system.local", "SELECT count(*) FROM system.peers", "SELECT * FROM system.peers_v2"}
 		ri.kind = "system"
+		if f.p.SystemPrepares {
+			// drivers prepare their system queries too: the proxy answers the PREPARE itself and
+			// must answer the EXECUTE of that id on the same connection itself
+			switch how := ch.Choose("sysprep", 4); {
+			case how == 2:
+				ri.kind = "prepare-system"
+				ri.req = c.Send("prepare", "", &message.Prepare{Query: qs[ch.Choose("sysq", 3)]}, nil)
+				f.w.Stat("probe.system_prepare_sent")
+			case how == 3 && len(f.sysPrepared[c]) > 0:
+				sp := f.sysPrepared[c][ch.Choose("sysprepwhich", len(f.sysPrepared[c]))]
+				var rm []byte
+				if c.Version.SupportsResultMetadataId() {
+					rm = sp[1]
+				}
+				ri.req = c.Send("system", "", world.ExecMsg(sp[0], rm, "", cl), nil)
+				f.w.Stat("probe.system_execute_sent")
+			}
+			if ri.req != nil {
+				break
+			}
+		}
 		ri.req = c.Send("system", "", world.QueryMsg(qs[ch.Choose("sysq", len(qs))], cl), nil)
 	case kOptions:
 		ri.kind = "options"
@@ -358,13 +381,30 @@ func (f *fwd) sendOne(i int) {
 		ri.kind = "use"
 		ri.req = c.Send("use", "", world.QueryMsg("USE "+ks, cl), nil)
 	case kGraph:
-		// graph statements are opaque to the proxy; whether they may be retried is configuration
+		// graph statements are opaque to the proxy; whether they may be retried is configuration --
+		// whatever the statement text looks like and however the request is made (a traversal
+		// string, text that happens to read as CQL, or an EXECUTE of a prepared statement)
 		ri.kind, ri.idem = "graph", f.w.Cfg.IdempotentGraph
 		ri.specs = f.script(tok, c.Version)
-		ri.req = c.Send("query", tok, world.QueryMsg("g.V().has('k','"+tok+"').property('v', 1)", cl), func(fr *frame.Frame) {
-			// a single entry: the wire order of a Go map is random and would make byte counts differ between replays
-			fr.SetCustomPayload(map[string][]byte{"graph-source": []byte("g")})
-		})
+		// a single entry: the wire order of a Go map is random and would make byte counts differ between replays
+		payload := func(fr *frame.Frame) { fr.SetCustomPayload(map[string][]byte{"graph-source": []byte("g")}) }
+		switch shape := ch.Choose("graphshape", 4); {
+		case shape == 2:
+			st := world.DrawStmt(ch, "'"+tok+"'", "ks.t")
+			f.w.Stat("probe.graph_request_with_cql_text")
+			ri.req = c.Send("query", tok, world.QueryMsg(st.Text, cl), payload)
+		case shape == 3 && len(f.usablePreps()) > 0:
+			ps := f.usablePreps()
+			p := ps[ch.Choose("prep", len(ps))]
+			var rm []byte
+			if c.Version.SupportsResultMetadataId() {
+				rm = p.rmid
+			}
+			f.w.Stat("probe.graph_request_as_execute")
+			ri.req = c.Send("execute", tok, world.ExecMsg(p.id, rm, tok, cl), payload)
+		default:
+			ri.req = c.Send("query", tok, world.QueryMsg("g.V().has('k','"+tok+"').property('v', 1)", cl), payload)
+		}
 	case kExecForeign:
 		id := f.foreignID()
 		ri.kind, ri.idem = "execute-foreign", false
@@ -402,6 +442,15 @@ func (f *fwd) onReply(req *world.ClientReq, rep *world.ClientReply) {
 	if f.p.CheckTokens && ri != nil {
 		f.checkToken(ri, rep)
 	}
+	if ri != nil && ri.kind == "prepare-system" && rep.Frame != nil {
+		if pr, ok := rep.Frame.Body.Message.(*message.PreparedResult); ok {
+			if f.sysPrepared == nil {
+				f.sysPrepared = map[*world.Client][][2][]byte{}
+			}
+			f.sysPrepared[req.Client] = append(f.sysPrepared[req.Client], [2][]byte{pr.PreparedQueryId, pr.ResultMetadataId})
+		}
+		return
+	}
 	if ri == nil || ri.kind != "prepare" || rep.Frame == nil {
 		return
 	}
@@ -436,7 +485,7 @@ func (f *fwd) checkToken(ri *reqInfo, rep *world.ClientReply) {
 			return
 		}
 	case *message.PreparedResult:
-		if ri.kind != "prepare" {
+		if ri.kind != "prepare" && ri.kind != "prepare-system" {
 			f.w.Violate("c02-token", "reply-mismatch(kind)", fmt.Sprintf("request %s was answered with a PREPARED result", req))
 			return
 		}
